@@ -155,3 +155,11 @@ reg("C44", "model_checking", "TLA+ model AddrWrite (procedure steps on a bus pop
     "afterwards) must satisfy the same clauses; serial-number read/write and dmp_authorize2_r_co results are judged by the TLA+ reference on all response / level combinations.",
     "Trusted: TLC, the virtual-time loop, the simulated bus (20 ms reaction latency).",
     "DESIGN.md section 5 C44")
+
+reg("C20", "exploration", "TLA+ framing reference KnxIpFrame evaluated by TLC on every recorded KNXIPFrame.from_knx outcome (structure-aware mutation of a corpus of all body classes, watchdog)",
+    "Every body class (DIB/SRP/CRI/CRD/HPAI variants, every error code, feature type, session status) is serialised, then truncated at every length, substituted at "
+    "every octet (0, 1, 2, 0xFF, +-1; header octets also with neighbouring legal values), given wrong announced lengths and trailing octets; plus synthetic bodies for every "
+    "service type and random strings. Each outcome of the real parser, run under a 1 s watchdog, is judged by TLC: only frame/incomplete/parse error; a frame consumed "
+    "exactly the announced length; 'incomplete' only when more octets could complete the frame.",
+    "Trusted: TLC, the header-level reading of 'could complete the frame'. Sampling of octet positions in quick; all positions in thorough.",
+    "DESIGN.md section 5 C20")
